@@ -37,7 +37,7 @@ exec(open(os.path.join(V, "tools", "manifest_engines.py")).read()) if os.path.ex
 TRACE_OF = {**{k: "Trace_Workspace (random array programs)" for k in ("C01", "C04", "C05", "C06", "C07", "C13", "C15")},
             **{k: "Trace_Stocks (histories on one stock object, exact fractions)" for k in ("C03", "C08", "C09", "C10", "C16", "C17")},
             **{k: "Trace_Tables (histories of imports into one array)" for k in ("C11", "C12")}}
-LIFE_OF = ("C02", "C05", "C17", "C18", "C19")
+LIFE_OF = ("C02", "C05", "C17", "C18", "C19", "C20")
 L2_OF = {"C03": "StocksImpl", "C09": "StocksImpl", "C10": "StocksImpl", "C06": "ArrayStore"}
 for p in props:
     pid = p["id"]
